@@ -101,6 +101,9 @@ struct Plan {
     nat_permille: u64,
     restart_phase: bool,
     rf: Vec<usize>,
+    /// A node (never the contact point) that the session's host filter rejects: no pool is
+    /// opened to it, no request may go there, its replicas' share falls to the others.
+    filtered_out: Option<usize>,
 }
 
 pub fn run(req: &RunRequest) -> Value {
@@ -122,6 +125,7 @@ pub fn run(req: &RunRequest) -> Value {
             nat_permille: [0, 0, 0, 300][tape::choose("c12:nat", 4) as usize],
             restart_phase: tape::chance("c12:restart_phase", 1, 4),
             rf: (0..dcs).map(|_| tape::choose("c12:rf", 4) as usize).collect(),
+            filtered_out: if nodes >= 2 && tape::chance("c12:host_filter", 1, 5) { Some(1 + tape::choose("c12:filtered_node", nodes as u64 - 1) as usize) } else { None },
         };
         let mut cluster = Cluster::new("c12");
         let mut zero_token_nodes = 0u64;
@@ -280,6 +284,7 @@ async fn main(plan: Plan) -> Outcome {
         } else {
             None
         },
+        filtered_out: plan.filtered_out.into_iter().collect(),
         ..SessionCfg::default()
     };
     let session = match client::build_session(&cfg).await {
@@ -438,12 +443,15 @@ async fn main(plan: Plan) -> Outcome {
     let mut checked = 0u64;
     let mut shard_checked = 0u64;
     let mut no_replica_permitted = 0u64;
+    out.count("runs_with_host_filter", plan.filtered_out.is_some() as u64);
     for s in &subs {
         let Some(f) = first.get(&s.marker) else { continue };
         let replicas = { world::world().cluster.replicas(&f.ks, f.token) };
         // Nodes the load-balancing configuration permits.
         let permitted = |n: usize| -> bool {
-            if plan.preference == 0 || plan.failover {
+            if plan.filtered_out == Some(n) {
+                false
+            } else if plan.preference == 0 || plan.failover {
                 true
             } else {
                 cluster_nodes[n].0 == preferred_dc
@@ -458,6 +466,9 @@ async fn main(plan: Plan) -> Outcome {
             "marker {} ks {} token {} -> node {} (dc {}) shard {:?}; replicas {:?} reachable+permitted {:?} preference {} dc {} failover {}",
             s.marker, f.ks, f.token, f.node, cluster_nodes[f.node].0, f.shard, replicas, r, plan.preference, preferred_dc, plan.failover
         );
+        if plan.filtered_out == Some(f.node) {
+            out.violation("c12.request_to_filtered_node", format!("a request went to a node the host filter rejects: {ctx}"));
+        }
         if r.is_empty() {
             no_replica_permitted += 1;
         } else {
